@@ -45,6 +45,8 @@ type srvSpec struct {
 	failOpn   []string
 	readOnly  bool   // os server: ReadOnly()
 	fixedRoot string // os server: serve this directory (wiped first) instead of a fresh scratch directory
+	replyFail bool   // the peer's receiving side goes away once the setup is done: every later reply fails to be written
+	appClose  bool   // the application calls RequestServer.Close() at a point the explorer chooses
 	maxTx     uint32 // maximum payload option (0 = not given)
 	txFirst   bool   // give the maximum payload option before the allocator option (options are applied in order)
 	dirs      []string
@@ -64,6 +66,7 @@ type srvRun struct {
 	reqIDs   []uint32
 	alloc    *allocator
 	allocBad []string
+	appStop  func() // graceful stop by the application (request server)
 }
 
 var scratchRoot string
@@ -130,6 +133,7 @@ func (s *srvSpec) start() *srvRun {
 		rs := NewRequestServer(r.conn, r.h.handlers(), opts...)
 		r.alloc = rs.pktMgr.alloc
 		serve = rs.Serve
+		r.appStop = func() { rs.Close() }
 	case "os":
 		if s.fixedRoot != "" {
 			r.root = s.fixedRoot
@@ -222,6 +226,15 @@ func (r *srvRun) drive() {
 		r.send(p)
 		ok = r.collect(len(r.reqTypes))
 	}
+	if ok && s.replyFail {
+		r.out.CloseRead()
+	}
+	if ok && s.appClose && r.appStop != nil {
+		vsched.GoNamed("application", "harness", func() {
+			vsched.Env("app.close", r, false, nil) // somewhere during the burst: the explorer decides when
+			r.appStop()
+		})
+	}
 	if ok && len(s.burst) > 0 {
 		var all []byte
 		for _, p := range s.burst {
@@ -229,7 +242,9 @@ func (r *srvRun) drive() {
 			r.reqIDs = append(r.reqIDs, pktID(p))
 			all = append(all, p...)
 		}
-		if s.hangup >= 0 && s.hangup < len(all) {
+		if s.replyFail || s.appClose {
+			r.in.Write(all) // no reply can be expected: write the burst and hang up
+		} else if s.hangup >= 0 && s.hangup < len(all) {
 			r.in.Write(all[:s.hangup])
 		} else {
 			r.in.Write(all)
@@ -380,7 +395,7 @@ func c14SplitScenario(server string, nw, nr int) explore.Scenario {
 	}
 }
 
-func c14Scenario(server string, nw, nr int, twoHandles bool, alloc bool, mid bool, ro bool) explore.Scenario {
+func c14Scenario(server string, nw, nr int, twoHandles bool, alloc bool, mid bool, ro bool, end string) explore.Scenario {
 	return func() (func(), func(*vsched.Exec) explore.Verdict) {
 		const init = "ABCDEFGHIJKLMNOP"
 		spec := &srvSpec{server: server, alloc: alloc, split: true, hangup: -1, files: map[string]string{"/f": init, "/g": init}}
@@ -393,6 +408,7 @@ func c14Scenario(server string, nw, nr int, twoHandles bool, alloc bool, mid boo
 			}
 			return "/" + n
 		}
+		spec.replyFail, spec.appClose = end == "replyfail", end == "appclose"
 		pf := uint32(sshFxfRead | sshFxfWrite)
 		if ro {
 			// a read-only os-backed server: the handles are opened for reading, the burst holds reads only
@@ -462,6 +478,26 @@ func c14Scenario(server string, nw, nr int, twoHandles bool, alloc bool, mid boo
 			if e.Deadlock {
 				return v
 			}
+			if end != "" {
+				// the replies cannot be collected (the peer's receiving side is gone / the application stopped the server):
+				// what remains of the property is the order of events at the handler objects
+				v.Outcome = "end=" + end
+				if r.h != nil {
+					for _, f := range r.h.Opened {
+						if len(f.Bad) > 0 {
+							v.Bad = fmt.Sprintf("session ended by %s; handler object %s: %s", end, f.name, strings.Join(f.Bad, "; "))
+							v.Key = "c14-overlap:" + f.Bad[0]
+							return v
+						}
+						if f.Closes != 1 {
+							v.Bad = fmt.Sprintf("session ended by %s; handler object %s closed %d times", end, f.name, f.Closes)
+							v.Key = "c14-closes"
+							return v
+						}
+					}
+				}
+				return v
+			}
 			if msg := r.orderOracle(true); msg != "" {
 				v.Bad, v.Key = msg, "c14-order"
 				return v
@@ -519,7 +555,7 @@ func atoiDef(s string, d int) int {
 
 func init() {
 	reg.Part("C14/sched", func(c *reg.Ctx) *reg.Result {
-		sc := c14Scenario(c.Arg("server", "rs"), c.ArgInt("nw", 2), c.ArgInt("nr", 1), c.Arg("two", "0") == "1", c.Arg("alloc", "0") == "1", c.Arg("mid", "0") == "1", c.Arg("ro", "0") == "1")
+		sc := c14Scenario(c.Arg("server", "rs"), c.ArgInt("nw", 2), c.ArgInt("nr", 1), c.Arg("two", "0") == "1", c.Arg("alloc", "0") == "1", c.Arg("mid", "0") == "1", c.Arg("ro", "0") == "1", c.Arg("end", ""))
 		if c.Arg("splitmode", "0") == "1" {
 			sc = c14SplitScenario(c.Arg("server", "rs"), c.ArgInt("nw", 2), c.ArgInt("nr", 2))
 		}
@@ -573,6 +609,16 @@ func c14Jobs(tier string) []reg.Job {
 						return x
 					}(),
 					func() reg.Job {
+						x := j("rs W=2 2w+2r, realpath, close: the peer has stopped receiving db3", "instr-w2", "rs", 2, 2, false, 3, 600)
+						x.Args["end"], x.Args["mid"] = "replyfail", "1"
+						return x
+					}(),
+					func() reg.Job {
+						x := j("rs W=2 2w+2r, close: the application calls Close() db3", "instr-w2", "rs", 2, 2, false, 3, 600)
+						x.Args["end"] = "appclose"
+						return x
+					}(),
+					func() reg.Job {
 						x := j("rs W=2 2w+1r, fstat, close db3", "instr-w2", "rs", 2, 1, false, 3, 600)
 						x.Args["mid"] = "1"
 						return x
@@ -608,6 +654,16 @@ func c14Jobs(tier string) []reg.Job {
 				func() reg.Job {
 					x := j("os read-only W=8 3r, close db2", "instr", "os", 0, 3, false, 2, 100)
 					x.Args["ro"] = "1"
+					return x
+				}(),
+				func() reg.Job {
+					x := j("rs W=2 2w+1r, realpath, close: the peer has stopped receiving db2", "instr-w2", "rs", 2, 1, false, 2, 100)
+					x.Args["end"], x.Args["mid"] = "replyfail", "1"
+					return x
+				}(),
+				func() reg.Job {
+					x := j("rs W=2 2w+1r, close: the application calls Close() db2", "instr-w2", "rs", 2, 1, false, 2, 100)
+					x.Args["end"] = "appclose"
 					return x
 				}(),
 			}
